@@ -375,6 +375,37 @@ pub fn run(tier: Tier) -> i32 {
         st.excluded = st0.excluded;
         run.add_part("definitions", "each bundled unit's ratio/difference against the real-world definition kept in the harness (volume: absolute 1e-9, others: relative 1e-10); every unit is non-trivial", st, true);
     }
+    // standard notation: which unit a conventional symbol stands for does not come from the units file
+    if !run.failed() {
+        const NOTATION: &[(&str, &str)] = &[
+            ("℃", "celsius"), ("°C", "celsius"), ("ºC", "celsius"), ("C", "celsius"), ("℉", "fahrenheit"), ("°F", "fahrenheit"), ("ºF", "fahrenheit"), ("F", "fahrenheit"),
+            ("g", "gram"), ("kg", "kilogram"), ("mg", "milligram"), ("dag", "decagram"), ("l", "liter"), ("L", "liter"), ("ml", "milliliter"), ("dl", "deciliter"), ("cl", "centiliter"), ("kl", "kiloliter"),
+            ("m", "meter"), ("cm", "centimeter"), ("mm", "millimeter"), ("km", "kilometer"), ("tsp", "teaspoon"), ("tbsp", "tablespoon"), ("fl oz", "fluid ounce"), ("c", "cup"), ("pt", "pint"), ("qt", "quart"),
+            ("gal", "gallon"), ("ft", "foot"), ("'", "foot"), ("in", "inch"), ("\"", "inch"), ("oz", "ounce"), ("lb", "pound"), ("s", "second"), ("sec", "second"), ("min", "minute"), ("h", "hour"), ("d", "day"),
+            ("litre", "liter"), ("metres", "meter"), ("grams", "gram"), ("kilograms", "kilogram"), ("millilitres", "milliliter"),
+        ];
+        let mut st = Stats::default();
+        for (key, name) in NOTATION {
+            st.eval();
+            st.nontrivial(key);
+            let by_key = BUNDLED.find_unit(key);
+            let by_name = BUNDLED.find_unit(name);
+            let same = match (&by_key, &by_name) {
+                (Some(a), Some(b)) => std::sync::Arc::ptr_eq(a, b),
+                _ => false,
+            };
+            if !same {
+                run.fail(
+                    "notation",
+                    Violation::new("c09.definition", format!("`{key}` conventionally stands for the {name}; the bundled converter resolves it to {:?} (and `{name}` to {:?})", by_key.map(|u| u.to_string()), by_name.map(|u| u.to_string()))),
+                    json!(key),
+                );
+                break;
+            }
+        }
+        st.sample(|| json!(NOTATION[0]));
+        run.add_part("notation", "45 conventional symbols and spellings (℃ °C ºC C ℉ °F F, SI symbols, US customary abbreviations, ' and \" for foot and inch, British spellings) must resolve to the unit they conventionally stand for, found by its plain name; every entry is non-trivial", st, true);
+    }
     // (a)+(b) all ordered pairs x first key x grid, plus every key of both once
     if !run.failed() {
         let g = GRID.len() as u64;
